@@ -346,13 +346,23 @@ theorem close_spec (s : State) (o : Key) :
 
 /-! ### DeleteCircuits -/
 
+theorem deleteMem_none (s : State) (k : Key) (rest : List Key) (h : s.pending k = none) :
+    deleteMem s (k :: rest) = deleteMem s rest := by
+  simp only [deleteMem, h]
+
+theorem deleteMem_some (s : State) (k : Key) (rest : List Key) (id : ObjId)
+    (h : s.pending k = some id) :
+    deleteMem s (k :: rest) =
+      ((deleteMem (delStep s k id) rest).1, ⟨k, id, s.closed k⟩ :: (deleteMem (delStep s k id) rest).2) := by
+  simp only [deleteMem, h]
+
 theorem deleteMem_frame (s : State) (keys : List Key) :
     (deleteMem s keys).1.adds = s.adds ∧ (deleteMem s keys).1.ks = s.ks ∧
     (deleteMem s keys).1.objs = s.objs ∧ (deleteMem s keys).1.next = s.next := by
   induction keys generalizing s with
   | nil => simp [deleteMem]
   | cons k rest ih =>
-    simp only [deleteMem]
+    simp only [deleteMem, delStep]
     split
     · exact ih s
     · exact ⟨(ih _).1, (ih _).2.1, (ih _).2.2.1, (ih _).2.2.2⟩
@@ -362,7 +372,7 @@ theorem deleteMem_pending (s : State) (keys : List Key) (x : Key) :
   induction keys generalizing s with
   | nil => simp [deleteMem]
   | cons k rest ih =>
-    simp only [deleteMem]
+    simp only [deleteMem, delStep]
     split
     · rename_i hk
       rw [ih s]
@@ -383,7 +393,7 @@ theorem deleteMem_closed (s : State) (keys : List Key) (x : Key) :
   induction keys generalizing s with
   | nil => simp [deleteMem]
   | cons k rest ih =>
-    simp only [deleteMem]
+    simp only [deleteMem, delStep]
     split
     · rename_i hk
       rw [ih s]
@@ -405,7 +415,7 @@ theorem deleteMem_removed (s : State) (keys : List Key) :
   | nil => simp [deleteMem]
   | cons k rest ih =>
     intro r hr
-    simp only [deleteMem] at hr
+    simp only [deleteMem, delStep] at hr
     split at hr
     · have := ih s r hr
       exact ⟨this.1, this.2.1, List.mem_cons_of_mem _ this.2.2⟩
@@ -427,7 +437,7 @@ theorem deleteMem_removed_complete (s : State) (keys : List Key) (x : Key) (id :
   induction keys generalizing s with
   | nil => cases hx
   | cons k rest ih =>
-    simp only [deleteMem]
+    simp only [deleteMem, delStep]
     split
     · rename_i hk
       have : x ≠ k := by intro e; subst e; rw [hk] at hp; cases hp
@@ -443,9 +453,7 @@ theorem deleteMem_removed_complete (s : State) (keys : List Key) (x : Key) (id :
           cases hx with
           | head => exact absurd rfl e
           | tail _ h => exact h
-        have := ih { s with pending := upd s.pending k none, closed := upd s.closed k false,
-                             opened := openedDel s.opened (s.objs id').outgoing } hx'
-                    (by simp [upd_apply, e, hp])
+        have := ih (delStep s k id') hx' (by simp [delStep, upd_apply, e, hp])
         obtain ⟨r, hr, hk'⟩ := this
         exact ⟨r, List.mem_cons_of_mem _ hr, hk'⟩
 
